@@ -31,6 +31,9 @@ pub const POS_USER1: &str = "被子植物門,双子葉植物綱,ムクロジ目,
 pub const POS_USER2: &str = "ユーザ,品詞,二,*,*,*";
 pub const POS_USER3: &str = "ユーザ,品詞,三,*,*,*";
 pub const POS_PLUGIN: &str = "プラグイン,品詞,*,*,*,*";
+/// components left blank (spreadsheet-made user dictionaries): a blank component is the empty string, not `*`
+pub const POS_BLANKS: &str = "果物,柑橘,,,,";
+pub const POS_BLANKS2: &str = "果物,柑橘,*,,*,";
 
 /// A reference to another word as written in the CSV
 #[derive(Clone, Debug, Serialize, Deserialize, PartialEq, Eq)]
